@@ -11,6 +11,9 @@
 #include <amgcl/adapter/reorder.hpp>
 #include <amgcl/adapter/scaled_problem.hpp>
 #include <amgcl/adapter/zero_copy.hpp>
+#include <amgcl/adapter/crs_builder.hpp>
+#include <amgcl/adapter/eigen.hpp>
+#include <Eigen/SparseCore>
 #include <amgcl/make_solver.hpp>
 #include <amgcl/amg.hpp>
 #include <amgcl/coarsening/smoothed_aggregation.hpp>
@@ -83,6 +86,60 @@ void compare(const char *cls, const M &A, vr::rng &g, const Prm &prm, const char
     vr::emit(o.done());
 }
 
+// ---- the same shuffled matrix handed over as every matrix type an entry point accepts
+struct arr_builder {
+    typedef double val_type; typedef ptrdiff_t col_type; const arrays *a;
+    size_t rows() const { return a->n; } size_t nonzeros() const { return a->col.size(); }
+    void operator()(size_t i, std::vector<col_type> &col, std::vector<val_type> &val) const { for (ptrdiff_t p = a->ptr[i]; p < a->ptr[i+1]; ++p) { col.push_back(a->col[p]); val.push_back(a->val[p]); } }
+};
+template <class P, class Prm, class Mat>
+void probe_mat(const Mat &m, size_t n, const Prm &prm, std::vector<double> &out, std::string &exc) {
+    out.clear(); exc.clear();
+    try {
+        P p(m, prm);
+        for (int k = 0; k < 3; ++k) {
+            std::vector<double> f(n), x(n, 0.0);
+            for (size_t i = 0; i < n; ++i) f[i] = k == 0 ? 1.0 : (k == 1 ? ((i % 2) ? -1.0 : 2.0) : (double)((i * 37 + 11) % 13) - 6.0);
+            p.apply(f, x);
+            out.insert(out.end(), x.begin(), x.end());
+        }
+    } catch (const std::exception &e) { exc = e.what(); if (exc.empty()) exc = "exception"; }
+}
+static void emit_cmp(const std::string &cls, const char *tag, const M &A, const std::vector<double> &xs, const std::string &es, const std::vector<double> &xu, const std::string &eu) {
+    bool bitwise = xs.size() == xu.size() && (xs.empty() || std::memcmp(xs.data(), xu.data(), xs.size() * sizeof(double)) == 0);
+    long double dmax = 0, amax = 0; bool finite = true;
+    for (size_t i = 0; i < xs.size() && i < xu.size(); ++i) { if (!std::isfinite(xs[i]) || !std::isfinite(xu[i])) finite = false; dmax = std::max<long double>(dmax, std::fabs((long double)xs[i] - xu[i])); amax = std::max<long double>(amax, std::fabs((long double)xs[i])); }
+    vr::obj o; o.str("k", "precond").str("cls", cls).str("tag", tag).i("n", A.nrows).i("nnz", A.nnz).str("exc_sorted", es).str("exc_shuffled", eu);
+    o.b("bitwise", bitwise && finite).i("reldiff_md", (!finite || xs.size() != xu.size()) ? 99999 : (dmax == 0 ? -99999 : md(dmax / (amax > 0 ? amax : 1)))).i("nt", omp_get_max_threads());
+    vr::emit(o.done());
+}
+// P must expose apply(f, x) (make_solver is wrapped below)
+template <class P, class Prm>
+void compare_types(const char *cls, const M &A, vr::rng &g, const Prm &prm, const char *tag) {
+    arrays s = to_arrays(A, 0), u = to_arrays(A, &g);
+    std::vector<double> xs, xu; std::string es, eu;
+    probe<P>(cls, s, prm, xs, es);                                               // reference: sorted rows, tuple
+    {   M Mu(std::tie(u.n, u.ptr, u.col, u.val));                                // exactly the internal CRS type, by const reference
+        const M &cref = Mu; probe_mat<P>(cref, u.n, prm, xu, eu); emit_cmp(std::string(cls) + " via backend::crs<double,ptrdiff_t,ptrdiff_t> const&", tag, A, xs, es, xu, eu); }
+    {   backend::crs<double, int, int> Mi(std::tie(u.n, u.ptr, u.col, u.val));   // CRS with other index types
+        probe_mat<P>(Mi, u.n, prm, xu, eu); emit_cmp(std::string(cls) + " via backend::crs<double,int,int>", tag, A, xs, es, xu, eu); }
+    {   backend::crs<float, long, size_t> Mf(std::tie(u.n, u.ptr, u.col, u.val)); // integer-valued data: exact in float
+        bool exact = true; for (double v : u.val) if ((double)(float)v != v) exact = false;
+        if (exact) { probe_mat<P>(Mf, u.n, prm, xu, eu); emit_cmp(std::string(cls) + " via backend::crs<float,long,size_t>", tag, A, xs, es, xu, eu); } }
+    {   arr_builder rb; rb.a = &u; probe_mat<P>(adapter::make_matrix(rb), u.n, prm, xu, eu); emit_cmp(std::string(cls) + " via crs_builder", tag, A, xs, es, xu, eu); }
+    {   typedef Eigen::SparseMatrix<double, Eigen::RowMajor, ptrdiff_t> EM; arrays w = u; w.col.push_back(0); w.val.push_back(0);
+        Eigen::Map<EM> Em(w.n, w.n, u.col.size(), w.ptr.data(), w.col.data(), w.val.data());
+        probe_mat<P>(Em, u.n, prm, xu, eu); emit_cmp(std::string(cls) + " via Eigen::Map<SparseMatrix>", tag, A, xs, es, xu, eu); }
+    {   auto Z = adapter::zero_copy_direct(u.n, u.ptr.data(), u.col.data(), u.val.data());       // borrowed CRS of the internal type (by reference: copied and sorted)
+        const M &zref = *Z; probe_mat<P>(zref, u.n, prm, xu, eu); emit_cmp(std::string(cls) + " via zero_copy_direct CRS const&", tag, A, xs, es, xu, eu); }
+}
+// make_solver as an entry point: apply = the preconditioner it built from the matrix it was handed
+template <class S> struct via_make_solver {
+    typedef typename S::params params; S s;
+    template <class Mat> via_make_solver(const Mat &m, const params &p) : s(m, p) {}
+    template <class V1, class V2> void apply(const V1 &f, V2 &x) const { s.precond().apply(f, x); }
+};
+
 // construct(sorted A) -> rebuild(M): M given with sorted rows vs. the same M with shuffled rows (allow_rebuild = true)
 template <class P, class Prm>
 void probe_rebuild(const arrays &a0, const arrays &m, Prm prm, std::vector<double> &out, std::string &exc) {
@@ -151,6 +208,15 @@ static void mode_precond(uint64_t seed, int reps) {
         compare<R_ilut>("as_preconditioner<ilut>", *A, g, R_ilut::params(), "mmatrix");
         compare<R_cheb>("as_preconditioner<chebyshev>", *A, g, R_cheb::params(), "mmatrix");
         compare< preconditioner::dummy<B> >("dummy", *A, g, preconditioner::dummy<B>::params(), "mmatrix");
+        // every entry point x every matrix type (order-sensitive ILU0 inside wherever the class takes a smoother)
+        if (r % 2 == 0) {
+            typedef amg<B, coarsening::smoothed_aggregation, relaxation::ilu0> TA; TA::params ta; ta.coarse_enough = 10;
+            compare_types<TA>("amg<smoothed_aggregation,ilu0>", *A, g, ta, "matrix types");
+            compare_types<R_ilu0>("as_preconditioner<ilu0>", *A, g, R_ilu0::params(), "matrix types");
+            compare_types<R_gs>("as_preconditioner<gauss_seidel>", *A, g, R_gs::params(), "matrix types");
+            typedef via_make_solver< make_solver<R_ilu0, solver::bicgstab<B>> > MS1; compare_types<MS1>("make_solver<as_preconditioner<ilu0>,bicgstab>", *A, g, MS1::params(), "matrix types");
+            typedef via_make_solver< make_solver<TA, solver::cg<B>> > MS2; MS2::params m2; m2.precond.coarse_enough = 10; compare_types<MS2>("make_solver<amg<ilu0>,cg>", *A, g, m2, "matrix types");
+        }
         // rebuild() with a new matrix whose rows are unsorted (order-sensitive and order-insensitive smoothers)
         {   typedef amg<B, coarsening::smoothed_aggregation, relaxation::ilu0> RA1; typedef amg<B, coarsening::smoothed_aggregation, relaxation::iluk> RA2;
             typedef amg<B, coarsening::aggregation, relaxation::gauss_seidel> RA3; typedef amg<B, coarsening::smoothed_aggregation, relaxation::spai0> RA4;
@@ -170,6 +236,13 @@ static void mode_precond(uint64_t seed, int reps) {
         CPRDRS::params pd; pd.block_size = 2; pd.pprecond.coarse_enough = 10; compare<CPRDRS>("cpr_drs<amg,spai0>", *K, g, pd, "kron2");
         SCHUR::params ps; ps.pmask.assign(K->nrows, 0); for (size_t i = 0; i < K->nrows; i += 2) ps.pmask[i] = 1;
         compare<SCHUR>("schur_pressure_correction<jacobi,jacobi>", *K, g, ps, "kron2");
+        if (r % 2 == 1) {
+            typedef preconditioner::cpr<AMG1, R_ilu0> CPRI; CPRI::params ci; ci.block_size = 2; ci.pprecond.coarse_enough = 10; compare_types<CPRI>("cpr<amg,ilu0>", *K, g, ci, "matrix types");
+            typedef preconditioner::cpr_drs<AMG1, R_ilu0> CPRD; CPRD::params cd; cd.block_size = 2; cd.pprecond.coarse_enough = 10; compare_types<CPRD>("cpr_drs<amg,ilu0>", *K, g, cd, "matrix types");
+            typedef make_solver<R_ilu0, solver::preonly<B>> InnerI; typedef preconditioner::schur_pressure_correction<InnerI, InnerI> SCHI;
+            SCHI::params si; si.pmask.assign(K->nrows, 0); for (size_t i = 0; i < K->nrows; i += 2) si.pmask[i] = 1;
+            compare_types<SCHI>("schur_pressure_correction<ilu0,ilu0>", *K, g, si, "matrix types");
+        }
     }
 }
 
